@@ -161,31 +161,71 @@ def enabled (c : Cfg) (p : Proto) (r : Role) : Bool :=
     -- the keep-alive client is only started on request (WithKeepAlive)
     !(p == .keepAlive && r == .initiator && !c.sendKeepAlives))
 
-def bools : List Bool := [false, true]
-def modes : List NetMode := [.ntn, .ntc, .dmq]
-def roles : List Role := [.initiator, .responder]
 
-set_option maxRecDepth 100000 in
-theorem registered_iff_enabled_enum :
-    ∀ s ∈ bools, ∀ m ∈ modes, ∀ fd ∈ bools, ∀ ka ∈ bools, ∀ pdm ∈ bools, ∀ f1 ∈ bools, ∀ f2 ∈ bools,
-    ∀ f3 ∈ bools, ∀ f4 ∈ bools, ∀ p ∈ allProtos, ∀ r ∈ roles,
-      decide ((p, r) ∈ registered ⟨s, m, fd, ka, pdm, f1, f2, f3, f4⟩) =
-        enabled ⟨s, m, fd, ka, pdm, f1, f2, f3, f4⟩ p r := by decide +kernel
+/-- which mini-protocols setupConnection constructs = which the mode and version enable -/
+theorem mem_constructed (c : Cfg) (p : Proto) : p ∈ constructed c ↔ protoEnabled c p = true := by
+  unfold constructed protoEnabled
+  cases hm : c.mode <;> cases hk : c.keepAlive <;> cases hps : c.peerSharing <;>
+    cases hq : c.localQuery <;> cases ht : c.localTxMonitor <;> cases p <;> simp
 
-theorem mem_bools (b : Bool) : b ∈ bools := by cases b <;> decide
-theorem mem_modes (m : NetMode) : m ∈ modes := by cases m <;> decide
-theorem mem_roles (r : Role) : r ∈ roles := by cases r <;> decide
+/-- membership in `registered`, spelled out -/
+theorem mem_registered (c : Cfg) (p : Proto) (r : Role) :
+    (p, r) ∈ registered c ↔
+      (p = .handshake ∧ r = (if c.server then Role.responder else Role.initiator)) ∨
+      (serverSide c = true ∧ r = .responder ∧ p ∈ constructed c) ∨
+      (clientSide c = true ∧ r = .initiator ∧ p ∈ constructed c ∧ (p ≠ .keepAlive ∨ c.sendKeepAlives = true)) := by
+  unfold registered
+  simp only [List.mem_append, List.mem_cons, List.not_mem_nil, or_false, Prod.mk.injEq]
+  constructor
+  · rintro ((h | h) | h)
+    · exact Or.inl h
+    · right; left
+      split at h
+      · rename_i hs
+        obtain ⟨n, hn, hq⟩ := List.mem_map.mp h
+        simp only [Prod.mk.injEq] at hq
+        exact ⟨hs, hq.2.symm, hq.1 ▸ hn⟩
+      · simp at h
+    · right; right
+      split at h
+      · rename_i hs
+        obtain ⟨n, hn, hq⟩ := List.mem_map.mp h
+        simp only [Prod.mk.injEq] at hq
+        have hf := List.mem_filter.mp hn
+        refine ⟨hs, hq.2.symm, hq.1 ▸ hf.1, ?_⟩
+        have h2 := hf.2
+        simp only [Bool.or_eq_true, bne_iff_ne, ne_eq] at h2
+        rw [← hq.1]; exact h2
+      · simp at h
+  · rintro (h | ⟨hs, hr, hp⟩ | ⟨hs, hr, hp, hk⟩)
+    · exact Or.inl (Or.inl h)
+    · left; right
+      simp only [hs, ↓reduceIte]
+      exact List.mem_map.mpr ⟨p, hp, by rw [hr]⟩
+    · right
+      simp only [hs, ↓reduceIte]
+      refine List.mem_map.mpr ⟨p, List.mem_filter.mpr ⟨hp, ?_⟩, by rw [hr]⟩
+      simp only [Bool.or_eq_true, bne_iff_ne, ne_eq]
+      exact hk
 
 /-- **Started only what was enabled, and everything that was enabled.** For every
     configuration, version-flag valuation, protocol and role: the (protocol, role) receiver is
     registered with the muxer after setup iff the negotiation enabled it. -/
 theorem registered_iff_enabled (c : Cfg) (p : Proto) (r : Role) :
     (p, r) ∈ registered c ↔ enabled c p r = true := by
-  obtain ⟨s, m, fd, ka, pdm, f1, f2, f3, f4⟩ := c
-  have h := registered_iff_enabled_enum s (mem_bools s) m (mem_modes m) fd (mem_bools fd) ka (mem_bools ka)
-    pdm (mem_bools pdm) f1 (mem_bools f1) f2 (mem_bools f2) f3 (mem_bools f3) f4 (mem_bools f4)
-    p (allProtos_complete p) r (mem_roles r)
-  rw [← h]; simp
+  rw [mem_registered, mem_constructed]
+  unfold enabled roleEnabled serverSide clientSide
+  rw [duplex_eq_negotiated]
+  have hh : p = .handshake → protoEnabled c p = false := by intro h; subst h; rfl
+  by_cases hp : p = .handshake
+  · have := hh hp
+    subst hp
+    cases r <;> cases c.server <;> simp [this]
+  · by_cases hk : p = .keepAlive
+    · subst hk
+      cases r <;> cases c.server <;> cases negotiatedDuplex c <;> cases protoEnabled c .keepAlive <;>
+        cases c.sendKeepAlives <;> simp
+    · cases r <;> cases c.server <;> cases negotiatedDuplex c <;> cases protoEnabled c p <;> simp [hp, hk]
 
 /-- segment header field that addresses role `r` of the protocol with id `id` -/
 def fieldFor (id : Nat) : Role → Nat
@@ -203,14 +243,56 @@ def idNat : Proto → Nat
 theorem ids_match (p : Proto) : idOf GV.Gen.ConnProtocols.ids p.key = some (idNat p) := by
   cases p <;> decide
 
-set_option maxRecDepth 100000 in
-theorem enabled_reachable_enum :
-    ∀ s ∈ bools, ∀ m ∈ modes, ∀ fd ∈ bools, ∀ ka ∈ bools, ∀ pdm ∈ bools, ∀ f1 ∈ bools, ∀ f2 ∈ bools,
-    ∀ f3 ∈ bools, ∀ f4 ∈ bools, ∀ pr ∈ registered ⟨s, m, fd, ka, pdm, f1, f2, f3, f4⟩,
-      idNat pr.1 < 32768 ∧
-      routeBy (fun p => some (idNat p)) ⟨s, m, fd, ka, pdm, f1, f2, f3, f4⟩ (fieldFor (idNat pr.1) pr.2) =
-          .deliver pr.1 pr.2 := by
-  decide +kernel
+theorem idNat_inj (a b : Proto) (h : idNat a = idNat b) : a = b := by
+  cases a <;> cases b <;> first | rfl | (simp [idNat] at h)
+
+theorem idNat_lt (p : Proto) : idNat p < 32768 := by cases p <;> simp [idNat]
+
+/-- the muxer mode set by setupConnection admits the direction of every registered role -/
+theorem role_admitted (c : Cfg) (p : Proto) (r : Role) (h : (p, r) ∈ registered c) :
+    (r = .responder → muxMode c ≠ .initiator) ∧ (r = .initiator → muxMode c ≠ .responder) := by
+  rw [mem_registered] at h
+  unfold muxMode
+  unfold serverSide clientSide duplex at h
+  rcases h with ⟨_, hr⟩ | ⟨hs, hr, _⟩ | ⟨hs, hr, _⟩ <;> subst hr <;>
+    cases hsv : c.server <;> cases hfd : hsFullDuplex c <;> cases hf : c.fullDuplex <;> simp_all
+
+/-- **An enabled protocol is always reachable** (any id function that is injective on protocols):
+    every registered (protocol, role) is delivered the segments that carry its id and the
+    direction bit of its role. -/
+theorem reachable_by (c : Cfg) (p : Proto) (r : Role) (h : (p, r) ∈ registered c) :
+    routeBy (fun q => some (idNat q)) c (fieldFor (idNat p) r) = .deliver p r := by
+  have hadm := role_admitted c p r h
+  have hlt := idNat_lt p
+  have hfind : ∀ (l : List (Proto × Role)), (p, r) ∈ l →
+      ∃ q, l.find? (fun q => (some (idNat q.1) == some (idNat p)) && q.2 == r) = some q ∧ q = (p, r) := by
+    intro l hl
+    have hsome : (l.find? (fun q => (some (idNat q.1) == some (idNat p)) && q.2 == r)).isSome = true := by
+      rw [List.find?_isSome]; exact ⟨(p, r), hl, by simp⟩
+    cases hq : l.find? (fun q => (some (idNat q.1) == some (idNat p)) && q.2 == r) with
+    | none => rw [hq] at hsome; simp at hsome
+    | some q =>
+      refine ⟨q, rfl, ?_⟩
+      have hp := List.find?_some hq
+      simp only [Bool.and_eq_true, beq_iff_eq, Option.some.injEq] at hp
+      have := idNat_inj _ _ hp.1
+      cases q; simp_all
+  obtain ⟨q, hq, hqe⟩ := hfind (registered c) h
+  unfold routeBy
+  cases r with
+  | initiator =>
+    have hresp : decide (fieldFor (idNat p) Role.initiator ≥ 32768) = true := by simp [fieldFor]
+    have hid : fieldFor (idNat p) Role.initiator - 32768 = idNat p := by simp [fieldFor]
+    simp only [hresp, ↓reduceIte, hid]
+    have hm := hadm.2 rfl
+    cases hmm : muxMode c <;> simp_all
+  | responder =>
+    have hfield : fieldFor (idNat p) Role.responder = idNat p := rfl
+    rw [hfield]
+    have hresp : decide (idNat p ≥ 32768) = false := by simp; omega
+    simp only [hresp, Bool.false_eq_true, ↓reduceIte]
+    have hm := hadm.1 rfl
+    cases hmm : muxMode c <;> simp_all
 
 /-- **An enabled protocol is always reachable**: with the protocol ids of the running code
     (regenerated), every registered (protocol, role) is delivered the segments that carry its id
@@ -219,15 +301,12 @@ theorem enabled_reachable_enum :
 theorem enabled_reachable (c : Cfg) (p : Proto) (r : Role) (h : (p, r) ∈ registered c) :
     ∃ id, idOf GV.Gen.ConnProtocols.ids p.key = some id ∧ id < 32768 ∧
       route GV.Gen.ConnProtocols.ids c (fieldFor id r) = .deliver p r := by
-  obtain ⟨s, m, fd, ka, pdm, f1, f2, f3, f4⟩ := c
   have hf : (fun p : Proto => idOf GV.Gen.ConnProtocols.ids p.key) = (fun p => some (idNat p)) :=
     funext ids_match
-  have := enabled_reachable_enum s (mem_bools s) m (mem_modes m) fd (mem_bools fd) ka (mem_bools ka)
-    pdm (mem_bools pdm) f1 (mem_bools f1) f2 (mem_bools f2) f3 (mem_bools f3) f4 (mem_bools f4) (p, r) h
-  refine ⟨idNat p, ids_match p, this.1, ?_⟩
+  refine ⟨idNat p, ids_match p, idNat_lt p, ?_⟩
   unfold route
   rw [hf]
-  exact this.2
+  exact reachable_by c p r h
 
 /-- The muxer constants of the running code are the ones the model's `MuxMode` stands for. -/
 theorem mux_constants :
